@@ -48,6 +48,7 @@ def gen_schedule(rng: random.Random, fault_class):
         "preempt_p": p,
         "policy": rng.choice(list(POLICIES)),
         "pct_d": rng.randint(1, 3),
+        "hot_boost": rng.choice([0.0, 0.3, 0.3, 0.6]),
         "faults": faults,
     }
 
@@ -83,6 +84,7 @@ def _make_sim(schedule, hooks):
     return Sim(
         seed=s.get("seed", 0), mode=mode, workers=s.get("workers", 4), granularity=s.get("granularity", "line"),
         preempt_p=s.get("preempt_p", 0.05), policy=s.get("policy", "uniform"), pct_d=s.get("pct_d", 2),
+        hot_boost=s.get("hot_boost", 0.0),
         preempts=s.get("preempts"), choices=s.get("choices"), faults=s.get("faults"),
         fault_events=s.get("fault_events"), hooks=hooks,
     )
